@@ -977,3 +977,69 @@ mutant("c04-fetch-shares-sets", "C04", "C04-D3", "adapter/broadcast_operator.go"
        """func (b *BroadcastOperator) SocketsJoin(room ...Room) {
 	opts := NewBroadcastOptions()
 	opts.Rooms = b.exceptRooms.Clone()""")
+
+# ---------------------------------------------------------------- C08
+mutant("c08-deliver-before-logging", "C08", "C08-D1", "adapter/adapter_session_aware.go",
+       """		a.packets = append(a.packets, packet)
+		a.mu.Unlock()
+	}
+	a.inMemoryAdapter.Broadcast(header, v, opts)""",
+       """		a.inMemoryAdapter.Broadcast(header, v, opts)
+		a.packets = append(a.packets, packet)
+		a.mu.Unlock()
+		return
+	}
+	a.inMemoryAdapter.Broadcast(header, v, opts)""")
+mutant("c08-unknown-offset-still-ok", "C08", "C08-D3", "adapter/adapter_session_aware.go",
+       """	if index == -1 {
+		return nil, false
+	}""",
+       """	if index == -1 && len(a.packets) > 0 {
+		return nil, false
+	}""")
+mutant("c08-leaveall-before-persist", "C08", "C08-D4", "server_socket.go",
+       """		if s.server.connectionStateRecovery.Enabled && recoverableDisconnectReasons.Contains(reason) {""",
+       """		s.leaveAll()
+		if s.server.connectionStateRecovery.Enabled && recoverableDisconnectReasons.Contains(reason) {""")
+mutant("c08-cleaner-no-expiry-test", "C08", "C08-D2", "adapter/adapter_session_aware.go",
+       """			if packet.HasExpired(a.maxDisconnectDuration) {
+				a.packets = append(a.packets[:i], a.packets[i+1:]...)
+				break
+			}""",
+       """			_ = packet
+			if len(a.packets) > 1000 {
+				a.packets = append(a.packets[:i], a.packets[i+1:]...)
+				break
+			}""")
+mutant("c08-flip-packet-predicate", "C08", "C08-D2", "adapter/adapter.go",
+       "	return time.Now().After(p.EmittedAt.Add(maxDisconnectDuration))", "	return time.Now().Before(p.EmittedAt.Add(maxDisconnectDuration))")
+mutant("c08-flip-session-predicate", "C08", "C08-D2", "adapter/adapter_session_aware.go",
+       "	return time.Now().After(s.DisconnectedAt.Add(maxDisconnectDuration))", "	return s.DisconnectedAt.Add(maxDisconnectDuration).After(time.Now())")
+mutant("c08-expired-session-recovered", "C08", "C08-D3", "adapter/adapter_session_aware.go",
+       """	if sessionWithTS.hasExpired(a.maxDisconnectDuration) {
+		delete(a.sessions, pid)
+		return nil, false
+	}""",
+       """	if sessionWithTS.hasExpired(a.maxDisconnectDuration) {
+		delete(a.sessions, pid)
+	}""")
+mutant("c08-scan-includes-offset-packet", "C08", "C08-D3", "adapter/adapter_session_aware.go",
+       "	for i := index + 1; i < len(a.packets); i++ {", "	for i := index; i < len(a.packets); i++ {")
+mutant("c08-log-acked-events-too", "C08", "C08-D1", "adapter/adapter_session_aware.go",
+       "	if isEventPacket && withoutAcknowledgement {", "	if isEventPacket || withoutAcknowledgement {")
+mutant("c08-id-not-appended-to-args", "C08", "C08-D1", "adapter/adapter_session_aware.go",
+       """		id := a.yeaster.Yeast()
+		v = append(v, id)
+""",
+       """		id := a.yeaster.Yeast()
+""")
+mutant("c08-restored-socket-fresh-id", "C08", "C08-D4", "server_socket.go",
+       "		s.id = previousSession.SID\n		s.pid = previousSession.PID", "		s.pid = previousSession.PID")
+mutant("c08-client-offset-key", "C08", "C08-D5", "client_socket.go",
+       '		m["offset"] = lastOffset', '		m["lastOffset"] = lastOffset')
+mutant("c08-recovered-without-pid-compare", "C08", "C08-D5", "client_socket.go",
+       "		if ok && pid == adapter.PrivateSessionID(v.PID) {\n			s.setRecovered(true)", "		if ok && pid != \"\" {\n			s.setRecovered(true)")
+mutant("c08-persist-any-reason", "C08", "C08-D4", "server_socket.go",
+       "		if s.server.connectionStateRecovery.Enabled && recoverableDisconnectReasons.Contains(reason) {", "		if s.server.connectionStateRecovery.Enabled {")
+mutant("c08-filter-by-except-only", "C08", "C08-D3", "adapter/adapter_session_aware.go",
+       "		if shouldIncludePacket(sessionWithTS.SessionToPersist.Rooms, packet.Opts) {\n			missedPackets = append(missedPackets, packet)\n		}", "		missedPackets = append(missedPackets, packet)")
